@@ -25,6 +25,11 @@
 // that fires — slot (K KE KL E L EM LM), node, six getters — must equal, in order, what M (visitO with the same option
 // set and skip list, GetVisitFn's precedence modelled) produces, and after the walk the getters must be nil.
 //
+// Bridge (Props/C14Bridge): M's events are computed by the Lean small-step MACHINE of visitor.Visit run on the abstract
+// tree toNode(doc) with the TypeInfo-wrapping visitor; callbacks on Name / Named / List / NonNull nodes are compared too
+// (observedM); and toNode(doc) — ids in preorder, slots per kind in the order of the regenerated child-key table — must
+// equal the tree built here from the REAL AST by reflection along the REAL visitor.QueryDocumentKeys (abstractTree).
+//
 // Documents: gen.ValidDoc and the same IR after 1-3 typed mutations (unknown fields / types / directives, wrong
 // literals, variables and wrong-kind literals at NESTED positions of list / input-object literals, several faults in
 // one literal …) over gen.SchemaGen schemas with custom directives, disjoint abstract types and list-shaped arguments.
@@ -33,6 +38,7 @@ package main
 import (
 	"fmt"
 	"reflect"
+	"runtime/debug"
 	"sort"
 	"strings"
 
@@ -52,6 +58,72 @@ var observed = map[string]bool{"OperationDefinition": true, "VariableDefinition"
 	"Field": true, "Argument": true, "IntValue": true, "FloatValue": true, "StringValue": true, "BooleanValue": true,
 	"EnumValue": true, "ListValue": true, "ObjectValue": true, "ObjectField": true, "Directive": true,
 	"FragmentSpread": true, "InlineFragment": true, "FragmentDefinition": true}
+
+// observedM: kinds whose callbacks are compared with the stack machine M (S does not list Name / type-reference nodes)
+var observedM = func() map[string]bool {
+	m := map[string]bool{"Name": true, "Named": true, "List": true, "NonNull": true}
+	for k := range observed {
+		m[k] = true
+	}
+	return m
+}()
+
+// abstractTree: the abstract tree of the real AST — ids in preorder, slots by reflection along the REAL
+// visitor.QueryDocumentKeys — in the driver's encoding [id, [[key,0] | [key,1,node] | [key,2,[node…]] …]] (the numbering and
+// the walk of harness/cmd/c14), and the kind of every id.
+func abstractTree(n ast.Node, kinds *[]string) interface{} {
+	id := len(*kinds)
+	*kinds = append(*kinds, n.GetKind())
+	slots := []interface{}{}
+	v := reflect.ValueOf(n)
+	if v.Kind() == reflect.Ptr {
+		v = v.Elem()
+	}
+	for _, key := range visitor.QueryDocumentKeys[n.GetKind()] {
+		f := v.FieldByName(key)
+		var one interface{}
+		var many []interface{}
+		if f.IsValid() {
+			switch f.Kind() {
+			case reflect.Slice:
+				for i := 0; i < f.Len(); i++ {
+					if c, ok := asNode(f.Index(i)); ok {
+						many = append(many, abstractTree(c, kinds))
+					}
+				}
+			default:
+				if c, ok := asNode(f); ok {
+					one = abstractTree(c, kinds)
+				}
+			}
+		}
+		switch {
+		case one != nil:
+			slots = append(slots, []interface{}{key, 1, one})
+		case len(many) > 0:
+			slots = append(slots, []interface{}{key, 2, many})
+		default:
+			slots = append(slots, []interface{}{key, 0})
+		}
+	}
+	return []interface{}{id, slots}
+}
+
+func asNode(f reflect.Value) (ast.Node, bool) {
+	switch f.Kind() {
+	case reflect.Ptr, reflect.Interface:
+		if f.IsNil() {
+			return nil, false
+		}
+	default:
+		return nil, false
+	}
+	if f.Kind() == reflect.Interface && f.Elem().Kind() == reflect.Ptr && f.Elem().IsNil() {
+		return nil, false
+	}
+	n, ok := f.Interface().(ast.Node)
+	return n, ok
+}
 
 func isNil(x interface{}) bool {
 	if x == nil {
@@ -121,8 +193,8 @@ type shapeT struct {
 var fullShape = &shapeT{Form: "enter+leave", Enter: true, Leave: true, KindFuncs: map[string][3]bool{}}
 
 func observedKinds() []string {
-	ks := make([]string, 0, len(observed))
-	for k := range observed {
+	ks := make([]string, 0, len(observedM))
+	for k := range observedM {
 		ks = append(ks, k)
 	}
 	sort.Strings(ks)
@@ -233,6 +305,12 @@ func runReal(schema *graphql.Schema, doc *ast.Document, sh *shapeT, skip func(ki
 				return visitor.ActionNoChange, nil
 			}
 			k := n.GetKind()
+			if observedM[k] && !observed[k] && n.GetLoc() != nil {
+				// Name / Named / List / NonNull: compared with M only
+				r := append(rec{k, n.GetLoc().Start, n.GetLoc().End}, getters()...)
+				res.seq = append(res.seq, hx.Canon(r))
+				res.events = append(res.events, hx.Canon(append([]interface{}{slot}, r...)))
+			}
 			if observed[k] && n.GetLoc() != nil {
 				r := append(rec{k, n.GetLoc().Start, n.GetLoc().End}, getters()...)
 				kk := key(r)
@@ -260,6 +338,10 @@ func runReal(schema *graphql.Schema, doc *ast.Document, sh *shapeT, skip func(ki
 				return visitor.ActionNoChange, nil
 			}
 			k := n.GetKind()
+			if observedM[k] && !observed[k] && n.GetLoc() != nil {
+				r := append(rec{k, n.GetLoc().Start, n.GetLoc().End}, getters()...)
+				res.events = append(res.events, hx.Canon(append([]interface{}{slot}, r...)))
+			}
 			if observed[k] && n.GetLoc() != nil {
 				r := append(rec{k, n.GetLoc().Start, n.GetLoc().End}, getters()...)
 				row := hx.Canon(r)
@@ -324,7 +406,7 @@ func runReal(schema *graphql.Schema, doc *ast.Document, sh *shapeT, skip func(ki
 func modelSeq(rows []rec) []string {
 	var out []string
 	for _, r := range rows {
-		if len(r) < 3 || !observed[fmt.Sprint(r[0])] {
+		if len(r) < 3 || !observedM[fmt.Sprint(r[0])] {
 			continue
 		}
 		r[1], r[2] = num(r[1]), num(r[2])
@@ -337,7 +419,7 @@ func modelSeq(rows []rec) []string {
 func modelEvents(evs []rec) []string {
 	var out []string
 	for _, e := range evs {
-		if len(e) < 4 || !observed[fmt.Sprint(e[1])] {
+		if len(e) < 4 || !observedM[fmt.Sprint(e[1])] {
 			continue
 		}
 		e[2], e[3] = num(e[2]), num(e[3])
@@ -377,6 +459,7 @@ var hooks = gq.Hooks{
 }
 
 func main() {
+	debug.SetGCPercent(400) // allocation-heavy (two real traversals + JSON per case): fewer collections
 	run := hx.Begin("C14")
 	drv, err := hx.StartDriver(run.DriverBin)
 	if err != nil {
@@ -425,16 +508,21 @@ func main() {
 		rs := runReal(&b.Schema, doc, shape, skip)
 		run.Tag("wrapped-visitor:" + shape.Form)
 		var resp struct {
-			Recs       []rec `json:"recs"`
-			MRecs      []rec `json:"mrecs"`
-			MRecsSkip  []rec `json:"mrecsSkip"`
-			MEvents    []rec `json:"mevents"`
-			ArgsUnique bool  `json:"argsUnique"`
-			Executable bool  `json:"executable"`
+			Recs          []rec       `json:"recs"`
+			MRecs         []rec       `json:"mrecs"`
+			MRecsSkip     []rec       `json:"mrecsSkip"`
+			MEvents       []rec       `json:"mevents"`
+			MachineDone   *bool       `json:"machineDone"`
+			MachineEqWalk *bool       `json:"machineEqWalk"`
+			ToNode        interface{} `json:"tonode"`
+			Kinds         []string    `json:"kinds"`
+			ArgsUnique    bool        `json:"argsUnique"`
+			Executable    bool        `json:"executable"`
 		}
 		req := map[string]interface{}{"typeinfo": true, "schema": c.Schema, "doc": astjson.Document(doc), "shape": shape}
 		if len(rs.skipped) > 0 {
 			req["skip"] = rs.skipped
+			req["wantSkipRecs"] = shape == fullShape
 		}
 		if err := drv.Ask(req, &resp); err != nil {
 			run.CheckError("driver: " + err.Error())
@@ -444,6 +532,24 @@ func main() {
 			run.Tag("theorem-premises-hold")
 		} else {
 			run.Tag(fmt.Sprintf("theorem-premises-fail:argsUnique=%v,executable=%v", resp.ArgsUnique, resp.Executable))
+		}
+		// the abstract tree the composed theorem (Props/C14Bridge) is about == the real AST along the real QueryDocumentKeys
+		if resp.Executable {
+			var kinds []string
+			realTree := abstractTree(doc, &kinds)
+			if hx.Canon(realTree) != hx.Canon(resp.ToNode) {
+				problems = append(problems, "abstract tree toNode(doc) of the model differs from the real AST walked along visitor.QueryDocumentKeys")
+			} else if hx.Canon(kinds) != hx.Canon(resp.Kinds) {
+				problems = append(problems, "node kinds by id differ: real "+hx.Canon(kinds)+" model "+hx.Canon(resp.Kinds))
+			} else {
+				run.Tag("toNode==real-abstract-tree")
+			}
+		}
+		if resp.MachineDone != nil && !*resp.MachineDone {
+			problems = append(problems, "the Lean machine (visitor.Visit loop) with the TypeInfo wrapper did not end done with empty stacks within fuelFor")
+		}
+		if resp.MachineEqWalk != nil && !*resp.MachineEqWalk {
+			problems = append(problems, "the Lean machine with the TypeInfo wrapper disagrees with the structural walk visitO (theorem machine_withTypeInfo_eq_visitO)")
 		}
 		if rr.panicked == "" {
 			if d := seqDiff("stack machine M differs from the real TypeInfo", rr.seq, modelSeq(resp.MRecs)); d != "" {
